@@ -33,9 +33,14 @@ fn run_one(cfg: &WorldCfg, ops: &[Op], plan: FaultPlan, tail: u64) -> FaultRun {
     w.run(ops);
     let mut bad: Option<(&'static str, String, String)> = None;
     if let Some(f) = &w.fail {
-        // with the screen oracles off the only failure World reports is a panic
+        // with the screen oracles off World reports panics and, after every operation, getters that left the model
         let name = ops.get(f.op_index).map(|o| o.name()).unwrap_or("?").to_string();
-        bad = Some(("panic-on-io-error", f.detail.clone(), name));
+        let rule = match f.rule {
+            "state-corrupted-by-io-error" => "state-corrupted-by-io-error",
+            "getter-panics-after-io-error" => "getter-panics-after-io-error",
+            _ => "panic-on-io-error",
+        };
+        bad = Some((rule, f.detail.clone(), name));
     }
     // ---- tail: a live bar changes its terminal while the old one may be failing ------------------------
     // (set_draw_target / adding a member to another or the same MultiProgress erase the bar from the old
@@ -254,7 +259,7 @@ pub fn run(cfg: &RunCfg) -> PropResult {
     };
     PropResult {
         report,
-        rule: "each evaluation: one base history (3-14 generated operations plus the revealing suffix: ticks, position/length updates, texts with tabs, set_tab_width, println, suspend, finish*/abandon*, drop, and for MultiProgress worlds add/insert/remove/mp.println/mp.clear/mp.suspend, half of them with set_move_cursor(true); a third of the histories end with a live bar changing its terminal: set_draw_target, add to a second MultiProgress, re-add to its own) is run fault-free to count its n terminal calls and then re-run 2n times: for EVERY k in 1..=n once with only call k failing and once with call k and all later calls failing (exhaustive in k up to 400 calls; the injected errors carry one of 7 io::ErrorKinds per history: Other, BrokenPipe, Interrupted, WouldBlock, TimedOut, WriteZero, UnexpectedEof); after each faulty run a probe battery (10 calls per bar, 3 on the MultiProgress, then drop) must not panic, io::Result-returning calls must have reported the error, getters must equal the fault-free model; non-trivial = the history makes at least 4 terminal calls".into(),
+        rule: "each evaluation: one base history (3-14 generated operations plus the revealing suffix: ticks, position/length updates, texts with tabs, set_tab_width, println, suspend, finish*/abandon*, drop, and for MultiProgress worlds add/insert/remove/mp.println/mp.clear/mp.suspend, half of them with set_move_cursor(true); a third of the histories end with a live bar changing its terminal: set_draw_target, add to a second MultiProgress, re-add to its own) is run fault-free to count its n terminal calls and then re-run 2n times: for EVERY k in 1..=n once with only call k failing and once with call k and all later calls failing (exhaustive in k up to 400 calls; the injected errors carry one of 7 io::ErrorKinds per history: Other, BrokenPipe, Interrupted, WouldBlock, TimedOut, WriteZero, UnexpectedEof); after each faulty run a probe battery (10 calls per bar, 3 on the MultiProgress, then drop) must not panic, io::Result-returning calls must have reported the error, getters must equal the fault-free model after every single operation and at the end; non-trivial = the history makes at least 4 terminal calls".into(),
         exhaustive: false,
     }
 }
